@@ -59,6 +59,7 @@ type world struct {
 	proofID      map[string]int // manifest hash of the proof's map -> id
 	inopID       map[string]int
 	knownID      map[string]int
+	bodyID       map[string]int64
 	inopByBytes  map[string]int
 	knownByBytes map[string]int
 	inops        []util.Hash
@@ -91,7 +92,7 @@ func newWorld(r *vh.Rand) *world {
 	w := &world{
 		encs: sharedEncs, enc: sharedEnc, priv: base.NewMPrivatekey(), addr: base.RandomAddress("local-"),
 		networkID: base.NetworkID([]byte("verif-c21")), r: r,
-		stateID: map[string]int{}, mapID: map[string]int{}, proofID: map[string]int{}, inopID: map[string]int{}, knownID: map[string]int{}, inopByBytes: map[string]int{}, knownByBytes: map[string]int{},
+		stateID: map[string]int{}, mapID: map[string]int{}, proofID: map[string]int{}, inopID: map[string]int{}, knownID: map[string]int{}, bodyID: map[string]int64{}, inopByBytes: map[string]int{}, knownByBytes: map[string]int{},
 		maxKey: 2,
 	}
 	for i := 0; i < 2; i++ {
